@@ -86,9 +86,72 @@ macro_rules! step_any {
 }
 step_any!(step_any_n2, 2, 10);
 step_any!(step_any_n3, 3, 10);
-step_any!(step_any_n4, 4, 10);
+step_any!(step_any_n4, 4, 7);
 step_any!(step_any_n5, 5, 10);
 step_any!(step_any_n6, 6, 11);
+
+/// Same contract, one harness per value of `in_header` (concrete) — in a header the data
+/// readers are never entered, which roughly halves the work of each solver call.
+macro_rules! step_state {
+    ($name:ident, $n:expr, $unwind:expr, $ih:expr) => {
+        #[kani::proof]
+        #[kani::unwind($unwind)]
+        #[kani::stub(lexical_core::parse, stub_parse_len)]
+        #[kani::stub(lexical_core::parse_partial_with_options, stub_parse_partial_radix)]
+        pub fn $name() {
+            let buf: [u8; $n] = kani::any();
+            let n: usize = kani::any();
+            kani::assume(n <= $n);
+            let s = &buf[..n];
+            let ic: bool = kani::any();
+            check_step(s, $ih, ic);
+        }
+    };
+}
+/// Data position, first byte restricted to one group by assumption (the groups partition all
+/// 256 values): the solver then only has to reason about that group's reader.
+macro_rules! step_data_group {
+    ($name:ident, $n:expr, $unwind:expr, $pred:expr) => {
+        #[kani::proof]
+        #[kani::unwind($unwind)]
+        #[kani::stub(lexical_core::parse, stub_parse_len)]
+        #[kani::stub(lexical_core::parse_partial_with_options, stub_parse_partial_radix)]
+        pub fn $name() {
+            let buf: [u8; $n] = kani::any();
+            let n: usize = kani::any();
+            kani::assume(n >= 1 && n <= $n);
+            let s = &buf[..n];
+            let p: fn(u8) -> bool = $pred;
+            kani::assume(p(s[0]));
+            let ic: bool = kani::any();
+            check_step(s, false, ic);
+        }
+    };
+}
+fn g_numeric(c: u8) -> bool { is_dig(c) || c == b'+' || c == b'-' || c == b'.' }
+fn g_hash(c: u8) -> bool { c == b'#' }
+fn g_quote(c: u8) -> bool { c == b'"' || c == b'\'' }
+fn g_paren(c: u8) -> bool { c == b'(' }
+fn g_alpha(c: u8) -> bool { is_alpha(c) }
+fn g_rest(c: u8) -> bool { !(g_numeric(c) || g_hash(c) || g_quote(c) || g_paren(c) || g_alpha(c)) }
+step_data_group!(data_numeric_n4, 4, 10, g_numeric);
+step_data_group!(data_hash_n4, 4, 10, g_hash);
+step_data_group!(data_quote_n4, 4, 10, g_quote);
+step_data_group!(data_paren_n4, 4, 10, g_paren);
+step_data_group!(data_alpha_n4, 4, 10, g_alpha);
+step_data_group!(data_rest_n4, 4, 10, g_rest);
+step_data_group!(data_numeric_n5, 5, 10, g_numeric);
+step_data_group!(data_hash_n5, 5, 10, g_hash);
+step_data_group!(data_quote_n5, 5, 10, g_quote);
+step_data_group!(data_paren_n5, 5, 10, g_paren);
+step_data_group!(data_alpha_n5, 5, 10, g_alpha);
+step_data_group!(data_rest_n5, 5, 10, g_rest);
+step_state!(step_header_n4, 4, 6, true);
+step_state!(step_data_n4, 4, 6, false);
+step_state!(step_header_n5, 5, 7, true);
+step_state!(step_header_n6, 6, 8, true);
+step_state!(step_data_n5, 5, 7, false);
+step_state!(step_data_n6, 6, 8, false);
 
 /// One harness per first-byte class with the first byte CONCRETE (symbolic execution then only
 /// walks that class' reader) — deeper bound.
